@@ -11,9 +11,13 @@ Driver for E3 (Earley model).
          "forest":[tree…],"epscycle":bool,"bound":n}
 
   {"op":"prefix", … as "parse" …, "input":{…,"rinc":[[regexId,cell]…]}}      (INCOMPLETE mode, Model/EarleyPrefix.lean)
+     the variant V carries one more key, REQUIRED here: "cutShort":b (the source has `ParseState.cut_short`)
      optional "stop_trees":n (stop, status "stopped", as soon as n trees have been yielded), "max_trees":n (forest cut)
       → {"status":"done"|"raised"|"fuel"|"stopped","steps":n,"phaseA":n (steps before the end-of-input phase),
          "cols":[…; the LAST column: [lhs,[sym…],dot,origin,nkids,incomplete?]…],"forest":[tree…] (yield order),
+         "lastB":null (the end-of-input phase has not begun) | [[lhs,[sym…],dot,origin,nkids,incomplete?,cut_short?]…]
+                 (the last column of the end-of-input phase in admission order, BEFORE the final repetition shortcut),
+         "skipped":n (iterations of `complete` that hit `if s.cut_short: continue`),
          "nforest":n,"epscycle":bool,"leftcycle":bool}
 
 sym := ["lit",leaf] | ["re",id] | ["nt",name,sender|null,recipient|null]
@@ -93,15 +97,27 @@ def runCount (c : Cfg) : Nat → M → Nat → Res × Nat
     | r => (r, n + 1)
 
 /-- the prefix-mode machine, counting steps (and the steps of phase A) -/
-def runPCount (pc : PCfg) (stop : Nat) : Nat → PM → Nat → Nat → PRes × Nat × Nat × Bool
-  | 0, pm, n, a => (.next pm, n, a, false)
-  | fuel + 1, pm, n, a =>
+def runPCount (pc : PCfg) (stop : Nat) : Nat → PM → Nat → Nat → Nat → PRes × Nat × Nat × Bool × Nat
+  | 0, pm, n, a, sk => (.next pm, n, a, false, sk)
+  | fuel + 1, pm, n, a, sk =>
     match stepP pc pm with
     | .next pm' =>
+      -- an iteration of `complete` that admitted nothing and tried nothing: `if s.cut_short: continue`
+      let sk' := match pm.frame with
+        | some (t, j) =>
+          (match (listOf pm (pc.c.ncols - 1) t)[j]? with
+           | some s => if pm.phaseB && pc.cutShort && s.cut then sk + 1 else sk
+           | none => sk)
+        | none => sk
       -- `stop` trees have been yielded: the caller of the real generator stops consuming it here (`max_trees`)
-      if stop ≠ 0 && stop ≤ pm'.m.out.length + pm'.out.length then (.next pm', n + 1, a, true)
-      else runPCount pc stop fuel pm' (n + 1) (if pm'.phaseB then a else a + 1)
-    | r => (r, n + 1, a, false)
+      if stop ≠ 0 && stop ≤ pm'.m.out.length + pm'.out.length then (.next pm', n + 1, a, true, sk')
+      else runPCount pc stop fuel pm' (n + 1) (if pm'.phaseB then a else a + 1) sk'
+    | r => (r, n + 1, a, false, sk)
+
+def jItemB (s : PSt) : Json :=
+  Json.arr #[Json.str (ntName s.item.lhs), jRhs s.item.rhs, Json.num (JsonNumber.fromNat s.item.dot),
+             Json.num (JsonNumber.fromNat s.item.origin), Json.num (JsonNumber.fromNat s.kids.length),
+             Json.bool s.inc, Json.bool s.cut]
 
 def jItemInc (s : St) (inc : Bool) : Json :=
   Json.arr #[Json.str (ntName s.item.lhs), jRhs s.item.rhs, Json.num (JsonNumber.fromNat s.item.dot),
@@ -184,9 +200,11 @@ def handle (j : Json) : Except String Json := do
       match predTbl.find? (fun e => e.1 == k && decide (e.2.1 = x)) with
       | some e => e.2.2
       | none => rulesOf G cap x
-    let pc := mkPCfg G v pinp start pred
+    -- the prefix-mode parameter travels with the variant; it is required (never defaulted)
+    let cs ← (← (← j.getObjVal? "variant").getObjVal? "cutShort").getBool?
+    let pc := mkPCfg G v cs pinp start pred
     let stop := (j.getObjValAs? Nat "stop_trees").toOption.getD 0
-    let (res, steps, stepsA, stopped) := runPCount pc stop fuel (PM.init pc) 0 0
+    let (res, steps, stepsA, stopped, skipped) := runPCount pc stop fuel (PM.init pc) 0 0 0
     let (status, pm) := match res with
       | .done pm => ("done", pm)
       | .raised pm => ("raised", pm)
@@ -207,6 +225,8 @@ def handle (j : Json) : Except String Json := do
       ("phaseA", Json.num (JsonNumber.fromNat stepsA)),
       ("cols", Json.arr cols.toArray), ("forest", Json.arr forest.toArray),
       ("nforest", Json.num (JsonNumber.fromNat outs.length)),
+      ("lastB", if pm.phaseB then Json.arr (pm.last.map jItemB).toArray else Json.null),
+      ("skipped", Json.num (JsonNumber.fromNat skipped)),
       ("epscycle", Json.bool (hasEpsCycle pc.c.rules)), ("leftcycle", Json.bool (hasLeftCycle pc.c.rules))]
   | _ => throw s!"unknown op {op}"
 
